@@ -954,10 +954,10 @@ int c19_xget_calls()
     int i = 1; const int ci = 2;
     typedef xtl::variant<int, xtl::xclosure_wrapper<int&>, xtl::xclosure_wrapper<const int&> > V;
     V byval(3), byref(xtl::closure(i)), bycref(xtl::closure(ci));
-    const V cbyval(4), cbyref(xtl::closure(i));
+    const V cbyval(4), cbyref(xtl::closure(i)), cbycref(xtl::closure(ci));
     int r = xtl::xget<int>(byval) + xtl::xget<int>(cbyval) + xtl::xget<int>(V(5)) + xtl::xget<int&>(byref) + xtl::xget<int&>(cbyref) + xtl::xget<int&>(V(xtl::closure(i)))
           + xtl::xget<const int&>(bycref) + xtl::xget<const int&>(byref) + xtl::xget<const int&>(cbyref) + xtl::xget<const int&>(V(xtl::closure(ci)))
-          + xtl::xget<int>(std::move(cbyval)) + xtl::xget<int&>(std::move(cbyref));
+          + xtl::xget<int>(std::move(cbyval)) + xtl::xget<int&>(std::move(cbyref)) + xtl::xget<const int&>(std::move(cbycref));
     auto ov = xtl::make_overload([](int x) { return x; }, [](double) { return -1; });
     return r + ov(3) + ov(2.5);
 }"""),
